@@ -86,6 +86,11 @@ type ConcCase struct {
 	Policies map[string]PolicySpec `json:"policies"`
 	Probes   []uint64              `json:"probes"`
 	Jitter   []int                 `json:"jitter"` // spin iterations before each thread's first call
+	// GoMaxProcs > 0: the child runs on that many Ps (the threads then share per-P state of the runtime, such as pools).
+	GoMaxProcs int `json:"gomaxprocs,omitempty"`
+	// HookSleepMicros > 0: every load sleeps that long at the hook between prctl and the seccomp call, so that other
+	// loads run in between (an injected delay between two steps of one call, not inside a critical section).
+	HookSleepMicros int `json:"hook_sleep_micros,omitempty"`
 }
 
 // ConcLoad is one load: policy "valid<ID>" denies probe number ID.
